@@ -86,6 +86,10 @@ pub fn encode_h<'v>(v: Value<'v>, path: &mut Vec<usize>, heap: Option<starlark::
         let vs: Vec<J> = st.iter().map(|(_, x)| encode_h(x, path, heap)).collect();
         return json!({"t": "struct", "k": ks, "v": vs});
     }
+    if ty == "record" || ty == "enum" {
+        // instances of record / enum types are compared through their repr (type name + fields)
+        return json!({"t": "repr", "s": v.to_repr().chars().map(|c| c as u32).collect::<Vec<_>>()});
+    }
     if ty == "range" {
         // repr: range(a, b) or range(a, b, c) or range(b)
         let r = v.to_repr();
@@ -163,6 +167,9 @@ pub fn classify(msg: &str) -> &'static str {
         ("modulo by zero", "div0"),
         ("Modulo by zero", "div0"),
         ("does not match the type annotation", "type"),
+        ("Unknown enum element", "value"),
+        ("Record instance cannot be created", "value"),
+        ("enum values must all be distinct", "value"),
         ("Not enough parameters in format string", "index"),
         ("for format string", "format"),
         ("Incomplete format", "format"),
